@@ -301,7 +301,7 @@ def calibrate(bdir, wd):
         rc, so, se = common.run_tool(bdir, "asl", ["-q", "-n", f, "-o", os.path.join(wd, "cal.p")], wd)
         m = re.search(r"@E (\d+)", so.decode(errors="replace"))
         cal["m:" + t["name"]] = dict(pad0=(m.group(1) != "0") if m else False)
-    # does LabelModify correct the *symbol* of a structure field?  (finding struct-field-symbol-keeps-pad-offset)
+    # does LabelModify correct the *symbol* of a structure field?  (finding struct-field-symbol-keeps-pad-offset, repaired by 0cba171)
     src = ("\tcpu\t68000\n\toutradix\t10\n\tpadding\ton\nR1\tstruct\nN1:\tdc.b\t?\nN2:\tdc.w\t?\nR1\tendstruct\n"
            "\tmessage\t\"@E \\{R1_N2}\"\n")
     open(os.path.join(wd, "cal.asm"), "w").write(src)
@@ -790,16 +790,22 @@ def hand_programs(cal):
     prog += [("L", None, ("PH", 32768 + 4096 + 4 * 50)), ("L", None, dcb(99)),
              ("C", lab, "irp", [13107], [("L", None, dcw(13107))], lab, False), ("L", None, ("DPH",)), ("L", lab + 1, ("B",))]
     out.append(Fixed(T["68000"], prog, "labels-at-constructs-68000"))
-    # the finding `label-before-labelled-statement-names-pad-byte`
+    # upstream's tests/t_padding (`label7:` / `label8: nop`): only the most recent label is adapted - the label alone on the line
+    # before a padded statement that carries a label of its own keeps the address of the pad byte
     out.append(Fixed(T["68000"], [("L", None, ("ORG", 4096)), ("L", None, dcb(1)), ("L", 1, ("B",)), ("L", 2, nop), ("L", 3, ("B",))],
                      "label-line-before-labelled-statement"))
-    # structure fields behind pad bytes (finding `struct-field-symbol-keeps-pad-offset`)
+    # structure fields behind pad bytes (repaired finding `struct-field-symbol-keeps-pad-offset`)
     q = ["1", "q"]
     out.append(Fixed(M["68000"], [("L", None, ("ORG", 4096)), ("L", None, ("ST", 1, False)),
                                   ("L", 1, ("M", ["DC", "1", "1", "-"] + q, "dc.b\t?")), ("L", 2, ("M", ["DC", "2", "1", "-"] + q, "dc.w\t?")),
                                   ("L", 3, ("M", ["DC", "1", "1", "-"] + q, "dc.b\t?")), ("L", 4, ("B",)),
                                   ("L", None, ("M", ["DC", "4", "1", "-"] + q, "dc.l\t?")), ("L", None, ("EST", 1, False)), ("L", 5, ("B",))],
                      "structure-fields-behind-pad-bytes"))
+    # the same rule inside a structure: `N1: dc.b ?` / `N2:` / `N3: dc.w ?` - N2 keeps the offset of the pad byte, N3 lies behind it
+    out.append(Fixed(M["68000"], [("L", None, ("ORG", 4096)), ("L", None, ("ST", 2, False)),
+                                  ("L", 1, ("M", ["DC", "1", "1", "-"] + q, "dc.b\t?")), ("L", 2, ("B",)),
+                                  ("L", 3, ("M", ["DC", "2", "1", "-"] + q, "dc.w\t?")), ("L", None, ("EST", 2, False)), ("L", 4, ("B",))],
+                     "most-recent-label-in-structure"))
     # several reservation operands per statement (6809), inside and outside a structure
     two = ["2", "q", "q"]
     out.append(Fixed(M["6809"], [("L", None, ("ORG", 4096)),
@@ -900,24 +906,28 @@ def run_part(args, bdir, wd, ok):
         dist["l-target:%s:%s" % (fam, t["name"])] += 1
         dist["l-stop:" + kv.get("stop", "?").split("@")[0]] += 1
         moved = lambda key: set() if kv.get(key, "-") == "-" else set(kv[key].split(","))   # noqa: E731
-        own, before, beforelab = moved("own"), moved("before"), moved("beforelab")
+        own, before, keptlab = moved("own"), moved("before"), moved("keptlab")
         agg["labels_moved_behind_a_pad_byte:own_line"] += len(own)
         agg["labels_moved_behind_a_pad_byte:line_before"] += len(before)
-        agg["labels_moved_behind_a_pad_byte:line_before_a_labelled_line"] += len(beforelab)
+        agg["labels_kept_at_the_pad_byte:line_before_a_labelled_line"] += len(keptlab)
         if fam == "constructs":
             cl = construct_labels(g.prog, set())
             bl = labels_before_constructs(g.prog, set())
             agg["labels_on_construct_lines"] += len(cl)
-            agg["labels_on_construct_lines_moved_behind_a_pad_byte"] += len(cl & (before | beforelab))
+            agg["labels_on_construct_lines_moved_behind_a_pad_byte"] += len(cl & before)
             agg["labels_alone_before_construct_lines"] += len(bl)
-            agg["labels_alone_before_construct_lines_moved_behind_a_pad_byte"] += len(bl & (before | beforelab))
-            if cl & (before | beforelab) or bl & (before | beforelab):
+            agg["labels_alone_before_construct_lines_moved_behind_a_pad_byte"] += len(bl & before)
+            if cl & before or bl & before:
                 distinct.add(req.split(" | ")[0])
         else:
             if kv.get("stop") == "end":
                 distinct.add(req.split(" | ")[0])
         if kv.get("cells") == "eq":
             agg["code_files_compared_with_spec_cells"] += 1
+        # on how many of the programs the refinement theorem C10_lab_refine speaks (its precondition `Pre`, evaluated by the driver)
+        agg["programs_meeting_the_precondition_of_C10_lab_refine:" + kv.get("pre", "?")] += 1
+        if kv.get("pre") == "yes" and kv.get("stop") == "end":
+            agg["programs_meeting_the_precondition_of_C10_lab_refine_and_judged_to_the_end"] += 1
         if len(samples) < 4 and kv.get("spec") == "ok" and kv.get("stop") == "end" and (own or before) and len(src) < 1500 and \
                 sum(1 for s in samples if s["family"] == fam) < 2:
             samples.append(dict(family=fam, target=t["name"], source=src, verdict=ans))
